@@ -50,6 +50,7 @@ fn run_impl(pool: &Pool, c: &Case) -> Obs {
             Obs { class: 0, err: 0, bytes: got.first().cloned().unwrap_or_default(), n_dispatch: got.len() }
         }
         Ok(hooks::InboundOutcome::Reply { error, bytes, .. }) => Obs { class: 1, err: code(error), bytes, n_dispatch: got.len() },
+        Ok(hooks::InboundOutcome::Suppressed { error }) => Obs { class: 3, err: code(error), bytes: vec![], n_dispatch: got.len() },
         Ok(hooks::InboundOutcome::ReplyEncodeError { error, .. }) => Obs { class: 2, err: code(error), bytes: vec![], n_dispatch: got.len() },
     }
 }
@@ -266,6 +267,33 @@ fn gen_large(rng: &mut Rng, out: &mut Vec<Case>) {
     }
 }
 
+/// inbound SCMP messages (an SCMP error must not be answered with an SCMP error)
+fn gen_scmp(rng: &mut Rng, out: &mut Vec<Case>) {
+    for ty in [0u8, 1, 2, 4, 5, 6, 100, 127, 128, 129, 130, 131, 200, 255] {
+        for variant in 0..5 {
+            let a = v4(rng);
+            let mut payload = vec![ty, 0, 0, 0, 0, 0, 0, 0]; payload.extend_from_slice(&payload_of(rng, 12));
+            let mut p = Pkt::new(0, a.to_vec(), 0, vec![], payload);
+            p.next_hdr = 202;
+            let mut from = ip4(a);
+            let what = match variant {
+                0 => "own source (accepted)",
+                1 => { from = ip4([a[0], a[1], a[2], a[3] ^ 1]); "wrong source" }
+                2 => { p.path_type = 2; p.path = vec![0; 32]; "one-hop path" }
+                3 => { from = ip4([a[0], a[1], a[2], a[3] ^ 1]); p.payload_len = Some(0); "wrong source, payload_len 0" }
+                _ => { from = ip4([a[0], a[1], a[2], a[3] ^ 1]); p.next_hdr = 17; "wrong source, next header UDP" }
+            };
+            out.push(Case { kind: "scmp", note: format!("SCMP type {ty}: {what}"), local: local_of(rng), from, dgram: p.bytes() });
+        }
+    }
+    // header only (no SCMP byte present), and a malformed datagram that looks like an SCMP error
+    let a = v4(rng);
+    let mut p = Pkt::new(0, a.to_vec(), 0, vec![], vec![]); p.next_hdr = 202; p.payload_len = Some(8);
+    out.push(Case { kind: "scmp", note: "SCMP next header, empty payload, wrong source".into(), local: local_of(rng), from: ip4([a[0], a[1], a[2], a[3] ^ 1]), dgram: p.bytes() });
+    let mut p = Pkt::new(0, a.to_vec(), 0, vec![], vec![1, 0, 0, 0, 0, 0, 0, 0]); p.next_hdr = 202; p.version = 3;
+    out.push(Case { kind: "scmp", note: "SCMP error inside a malformed (version 3) packet".into(), local: local_of(rng), from: ip4(a), dgram: p.bytes() });
+}
+
 /// packets produced by the implementation's own encoder
 fn gen_sdk(rng: &mut Rng, out: &mut Vec<Case>) {
     let ia: IsdAsn = "1-ff00:0:110".parse().unwrap();
@@ -315,6 +343,189 @@ fn gen_random(rng: &mut Rng, out: &mut Vec<Case>, n: usize) {
 
 // ---------------------------------------------------------------------------------------
 
+
+// ---------------------------------------------------------------------------------------
+// end-to-end: the REAL gateway (TunnelGateway::start_server on a real UDP socket, real
+// WireGuard handshake and data packets from a real client tunnel).  Ties the verif-hooks
+// wrapper (a copy of the Forwarded arm) to the receive loop itself: the same case format, so
+// the model is compared with what the running gateway did.
+mod e2e {
+    use super::*;
+    use ana_gotatun::{noise::{Tunn, TunnResult, rate_limiter::RateLimiter}, packet::{Packet, WgKind}, x25519};
+    use scion_sdk_observability::metrics::registry::MetricsRegistry;
+    use snap_dataplane::tunnel_gateway::{NoopTunnelGatewayObserver, dispatcher::TunnelGatewayDispatcher,
+        gateway::TunnelGateway, metrics::TunnelGatewayDispatcherMetrics};
+    use snap_tun::server::SnapTunAuthorization;
+    use std::{net::{SocketAddr, UdpSocket}, sync::Arc, time::{Duration, Instant}};
+
+    struct Authz;
+    impl SnapTunAuthorization for Authz {
+        type SessionData = ();
+        fn is_authorized(&self, _now: Instant, _identity: &[u8; 32]) -> Option<Arc<()>> { Some(Arc::new(())) }
+    }
+    struct ArcRec(Arc<Rec>);
+    impl Dispatcher for ArcRec { fn try_dispatch(&self, p: &ScionPacketView) { self.0.try_dispatch(p) } }
+
+    fn wg_bytes(k: WgKind) -> Packet {
+        match k { WgKind::HandshakeInit(p) => p.into_bytes(), WgKind::HandshakeResp(p) => p.into_bytes(),
+                  WgKind::CookieReply(p) => p.into_bytes(), WgKind::Data(p) => p.into_bytes() }
+    }
+
+    pub struct Gw {
+        pub local: IpAddr, pub from: IpAddr,
+        rec: Arc<Rec>, sock: UdpSocket, client: Tunn, server: SocketAddr,
+        _rt: tokio::runtime::Runtime, cancel: tokio_util::sync::CancellationToken,
+        /// keeps the gateway's outbound queue open (the loop ends when its sender is dropped)
+        _disp: TunnelGatewayDispatcher,
+    }
+
+    /// `bind`: server bind address; `client_bind`/`connect`: client side
+    pub fn start(bind: &str, client_bind: &str, connect_ip: &str) -> Option<Gw> {
+        let rt = tokio::runtime::Builder::new_multi_thread().worker_threads(2).enable_all().build().ok()?;
+        let socket = rt.block_on(async { tokio::net::UdpSocket::bind(bind).await }).ok()?;
+        let srv_addr = socket.local_addr().ok()?;
+        let static_server = x25519::StaticSecret::from([2u8; 32]);
+        let server_public = x25519::PublicKey::from(&static_server);
+        let (_disp, rx) = TunnelGatewayDispatcher::new(TunnelGatewayDispatcherMetrics::new(&MetricsRegistry::new()));
+        let rec = Arc::new(Rec::default());
+        let cancel = tokio_util::sync::CancellationToken::new();
+        let c2 = cancel.clone();
+        let rec2 = rec.clone();
+        rt.spawn(async move {
+            let gw = TunnelGateway::new(socket, static_server, Arc::new(Authz), Arc::new(ArcRec(rec2)),
+                                        Arc::new(NoopTunnelGatewayObserver), rx);
+            gw.start_server(c2).await;
+        });
+        let sock = UdpSocket::bind(client_bind).ok()?;
+        sock.set_read_timeout(Some(Duration::from_millis(5))).ok()?;
+        let server: SocketAddr = format!("{}:{}", connect_ip, srv_addr.port()).parse().ok()?;
+        let rl = Arc::new(RateLimiter::new(&server_public, 1000));
+        let client = Tunn::new(x25519::StaticSecret::from([7u8; 32]), server_public, None, None, 0, rl, server);
+        let from_ip = sock.local_addr().ok()?.ip();
+        // what the server sees as the peer: a v4 client of a dual-stack socket is v4-mapped
+        let from = match (srv_addr.ip(), from_ip) {
+            (IpAddr::V6(_), IpAddr::V4(a)) => IpAddr::V6(a.to_ipv6_mapped()),
+            (_, x) => x,
+        };
+        Some(Gw { local: srv_addr.ip(), from, rec, sock, client, server, _rt: rt, cancel, _disp })
+    }
+
+    impl Gw {
+        fn send(&self, k: WgKind) { let b = wg_bytes(k); let _ = self.sock.send_to(&b[..], self.server); }
+        /// one incoming UDP packet, decrypted; Some(plaintext) for a data packet
+        fn poll(&mut self) -> Option<Vec<u8>> {
+            let mut buf = vec![0u8; 16384];
+            let (n, _) = self.sock.recv_from(&mut buf).ok()?;
+            let dbg = std::env::var("VERIF_E2E_DEBUG").is_ok();
+            if dbg { eprintln!("e2e: udp in {n} bytes type {}", buf[0]); }
+            let wg = Packet::copy_from(&buf[..n]).try_into_wg().ok()?;
+            let r = self.client.handle_incoming_packet(wg);
+            if dbg { eprintln!("e2e: tunn result {:?}", match &r { TunnResult::Done => "Done".to_string(), TunnResult::Err(e) => format!("Err {e:?}"), TunnResult::WriteToNetwork(_) => "ToNetwork".into(), TunnResult::WriteToTunnel(p) => format!("ToTunnel {}", p.len()) }); }
+            match r {
+                TunnResult::WriteToTunnel(p) => Some(p[..].to_vec()),
+                TunnResult::WriteToNetwork(k) => { self.send(k); None }
+                _ => None,
+            }
+        }
+        pub fn handshake(&mut self) -> bool {
+            // a zero-length packet = keep-alive: starts the handshake without tunnelling a datagram
+            let Some(k) = self.client.handle_outgoing_packet(Packet::copy_from(&[][..])) else { return false };
+            self.send(k);
+            let t0 = Instant::now();
+            while t0.elapsed() < Duration::from_secs(5) {
+                let _ = self.poll();
+                let q: Vec<WgKind> = self.client.get_queued_packets().collect();
+                if !q.is_empty() { for k in q { self.send(k); } return true; }
+            }
+            false
+        }
+        /// Sends one datagram through the tunnel, then a PROBE datagram (3 bytes, always answered
+        /// with a reply quoting it).  The gateway handles tunnel packets in order and queues its
+        /// replies in order, so everything observed before the probe's reply is the effect of the
+        /// datagram: no timing assumption, and a second effect cannot be missed.
+        pub fn run(&mut self, dgram: &[u8]) -> Obs {
+            const PROBE: [u8; 3] = [0xEE, 0x5A, 0xC3];
+            self.rec.got.lock().unwrap().clear();
+            let Some(k) = self.client.handle_outgoing_packet(Packet::copy_from(dgram)) else {
+                return Obs { class: 8, err: 0, bytes: vec![], n_dispatch: 0 } };
+            self.send(k);
+            let Some(k) = self.client.handle_outgoing_packet(Packet::copy_from(&PROBE[..])) else {
+                return Obs { class: 8, err: 0, bytes: vec![], n_dispatch: 0 } };
+            self.send(k);
+            let mut replies: Vec<Vec<u8>> = vec![];
+            let t0 = Instant::now();
+            let mut synced = false;
+            while t0.elapsed() < Duration::from_secs(30) {
+                if let Some(p) = self.poll() {
+                    if p.len() > 3 && p[p.len() - 3..] == PROBE && p.len() == 4 * p[5] as usize + 8 + 3 { synced = true; break; }
+                    replies.push(p);
+                }
+            }
+            // the gateway stopped answering: it panicked or hangs on this datagram
+            if !synced { return Obs { class: 9, err: 0, bytes: vec![], n_dispatch: 0 }; }
+            let got = self.rec.got.lock().unwrap().clone();
+            match (got.len(), replies.len()) {
+                (1, 0) => Obs { class: 0, err: 0, bytes: got[0].clone(), n_dispatch: 1 },
+                (0, 1) => Obs { class: 1, err: 0, bytes: replies.remove(0), n_dispatch: 0 },
+                (0, 0) => Obs { class: 2, err: 0, bytes: vec![], n_dispatch: 0 },
+                (n, _) => Obs { class: 9, err: 0, bytes: vec![], n_dispatch: n.max(2) },
+            }
+        }
+    }
+    impl Drop for Gw { fn drop(&mut self) { self.cancel.cancel(); } }
+}
+
+/// datagrams for the end-to-end run: the peer address is fixed by the sockets
+fn gen_e2e(rng: &mut Rng, from: IpAddr) -> Vec<(String, Vec<u8>)> {
+    let mut v: Vec<(String, Vec<u8>)> = vec![];
+    let (nib, host): (u8, Vec<u8>) = match from { IpAddr::V4(a) => (0, a.octets().to_vec()), IpAddr::V6(a) => (3, a.octets().to_vec()) };
+    let mut other = host.clone(); let k = other.len() - 1; other[k] ^= 1;
+    for pt in [0u8, 1] {
+        v.push((format!("own source pt={pt}"), Pkt::new(nib, host.clone(), pt, path_of(rng, pt), payload_of(rng, 30)).bytes()));
+        v.push((format!("other source pt={pt}"), Pkt::new(nib, other.clone(), pt, path_of(rng, pt), payload_of(rng, 30)).bytes()));
+    }
+    // the other family carrying the same host as far as it can
+    match from {
+        IpAddr::V4(a) => v.push(("mapped form of the peer as IPv6 source".into(), Pkt::new(3, mapped(a.octets()).to_vec(), 0, vec![], payload_of(rng, 8)).bytes())),
+        IpAddr::V6(a) => { let o = a.octets(); v.push(("last four octets as IPv4 source".into(), Pkt::new(0, o[12..].to_vec(), 0, vec![], payload_of(rng, 8)).bytes())) }
+    }
+    for (sn, what) in [(4u8, "service"), (8, "unknown-4"), (7, "unknown-16"), (1, "unknown-8")] {
+        let h: Vec<u8> = host.iter().cloned().cycle().take(host_len(sn)).collect();
+        v.push((format!("{what} source type with the peer's bytes"), Pkt::new(sn, h, 0, vec![], payload_of(rng, 8)).bytes()));
+    }
+    for pt in [2u8, 3, 4, 77] { v.push((format!("own source pt={pt}"), Pkt::new(nib, host.clone(), pt, path_of(rng, pt), payload_of(rng, 8)).bytes())); }
+    let base = Pkt::new(nib, host.clone(), 1, std_path(rng, [2, 1, 0]), payload_of(rng, 40));
+    let b = base.bytes(); let hl = b.len() - 40;
+    for cut in [1usize, 5, 11, 12, 27, 28, hl - 1, hl, hl + 7] { v.push((format!("cut at {cut} (hdr {hl})"), b[..cut].to_vec())); }
+    for d in [-1i32, 1] { let mut q = base.clone(); q.hdr_len_units = Some(((hl / 4) as i32 + d) as u8); v.push((format!("hdr_len {d:+}"), q.bytes())); }
+    let mut q = base.clone(); q.version = 1; v.push(("version 1".into(), q.bytes()));
+    let mut q = base.clone(); q.payload_len = Some(10); v.push(("payload_len 10 < 40".into(), q.bytes()));
+    for n in [1196usize, 1300, 3000, 8000] {
+        let mut q = base.clone(); q.payload = payload_of(rng, n - hl); v.push((format!("valid {n} B"), q.bytes()));
+        let mut q = base.clone(); q.payload = payload_of(rng, n - hl); q.src_host = other.clone(); v.push((format!("spoofed {n} B"), q.bytes()));
+    }
+    for ty in [1u8, 4, 128] {
+        let mut q = Pkt::new(nib, other.clone(), 0, vec![], vec![ty, 0, 0, 0, 0, 0, 0, 0]); q.next_hdr = 202;
+        v.push((format!("SCMP type {ty} from a spoofed source"), q.bytes()));
+    }
+    for n in [1usize, 40, 2000] { v.push((format!("{n} random bytes"), (0..n).map(|_| rng.next() as u8).collect())); }
+    v
+}
+
+fn run_e2e(rng: &mut Rng, cases: &mut Vec<(Case, Obs)>, sum: &mut Summary) {
+    for (name, bind, cbind, connect) in [("v4", "127.0.0.1:0", "127.0.0.1:0", "127.0.0.1"), ("v6", "[::1]:0", "[::1]:0", "::1"),
+                                         ("dual", "[::]:0", "127.0.0.1:0", "127.0.0.1")] {
+        let Some(mut gw) = e2e::start(bind, cbind, connect) else { sum.count(&format!("e2e.{name}.unavailable")); continue };
+        if !gw.handshake() { sum.count(&format!("e2e.{name}.no_handshake")); continue; }
+        for (note, dgram) in gen_e2e(rng, gw.from) {
+            let o = gw.run(&dgram);
+            if o.class == 8 { sum.count(&format!("e2e.{name}.not_synchronised")); continue; }
+            sum.count(&format!("e2e.{name}.cases"));
+            cases.push((Case { kind: "e2e", note: format!("[{name}] {note}"), local: gw.local, from: gw.from, dgram }, o));
+        }
+    }
+}
+
 fn coq_ip(a: &IpAddr) -> String {
     match a { IpAddr::V4(x) => format!("(IPv4 {})", coq_bytes(&x.octets())), IpAddr::V6(x) => format!("(IPv6 {})", coq_bytes(&x.octets())) }
 }
@@ -346,6 +557,9 @@ fn reply_checksum_residue(r: &[u8]) -> Option<u16> {
 }
 
 fn main() {
+    if std::env::var("VERIF_E2E_DEBUG").is_ok() {
+        let _ = tracing_subscriber::fmt().with_env_filter("debug").with_writer(std::io::stderr).try_init();
+    }
     silence_panics();
     let out = arg("--out").expect("--out dir");
     let n: usize = arg("--n").and_then(|s| s.parse().ok()).unwrap_or(300);
@@ -359,6 +573,7 @@ fn main() {
     for _ in 0..(if thorough { 12 } else { 2 }) { gen_truncations(&mut rng, &mut cases, thorough); }
     gen_perturbed(&mut rng, &mut cases);
     gen_large(&mut rng, &mut cases);
+    gen_scmp(&mut rng, &mut cases);
     gen_sdk(&mut rng, &mut cases);
     gen_random(&mut rng, &mut cases, n);
 
@@ -366,13 +581,14 @@ fn main() {
     // write would show up as stale content of the previous reply
     let pool = hooks::new_pool(1);
     let pre = "From Sci Require Import Ingress.Cases. Open Scope N_scope.";
-    let mut sh = Shards::new(&out, pre, "icase", "verdicts", 60);
+    let mut sh = Shards::new(&out, pre, "icase", "verdicts", 120);
     let mut sum = Summary::default();
     let mut seen = std::collections::HashSet::new();
-    for c in &cases {
-        let o = run_impl(&pool, c);
+    let mut observed: Vec<(Case, Obs)> = cases.iter().map(|c| (c.clone(), run_impl(&pool, c))).collect();
+    if arg("--no-e2e").is_none() { run_e2e(&mut rng, &mut observed, &mut sum); }
+    for (c, o) in &observed {
         sum.count(&format!("kind.{}", c.kind));
-        sum.count(&format!("class.{}", ["dispatch", "reply", "encode_error", "", "", "", "", "", "", "panic"][o.class as usize]));
+        sum.count(&format!("class.{}", ["dispatch", "reply", "encode_error", "suppressed", "", "", "", "", "", "panic"][o.class as usize]));
         sum.count(&format!("check_error.{}", o.err));
         sum.count(&format!("peer.{}", match c.from { IpAddr::V4(_) => "v4", IpAddr::V6(a) => if a.to_ipv4_mapped().is_some() { "mapped" } else { "v6" } }));
         sum.count(&format!("size.{}", match c.dgram.len() { 0..=11 => "0-11", 12..=63 => "12-63", 64..=255 => "64-255", 256..=1232 => "256-1232", _ => "1233-9216" }));
@@ -385,7 +601,8 @@ fn main() {
         // a rejected datagram must not have been dispatched, a dispatched one not answered:
         // encode a violation of that as class 9 so that the Coq side flags it
         let class = if o.n_dispatch > 1 || (o.class != 0 && o.n_dispatch != 0) { 9 } else { o.class };
-        let case = format!("mkI {} {} {} {} {} {}", coq_ip(&c.local), coq_ip(&c.from), coq_segs(&c.dgram), class, o.err, coq_segs(&o.bytes));
+        let err = if c.kind == "e2e" { 255 } else { o.err };
+        let case = format!("mkI {} {} {} {} {} {}", coq_ip(&c.local), coq_ip(&c.from), coq_segs(&c.dgram), class, err, coq_segs(&o.bytes));
         let human = format!("kind={} {} peer={} local={} len={} -> class={} err={} out_len={} dgram={}", c.kind, c.note, c.from, c.local,
                             c.dgram.len(), class, o.err, o.bytes.len(),
                             if c.dgram.len() <= 120 { format!("{:02x?}", c.dgram) } else { format!("{:02x?}...", &c.dgram[..120]) });
